@@ -18,11 +18,94 @@ PUNCT = set("\\.+*?()|[]{}^$#&-~/!\"'%,:;<=>@_` \t\n")
 DOT = ("set", A.norm([(0, 9), (11, A.MAXCP)]))  # any scalar value except \n
 
 
+_FOLD = None
+_PERL = {}
+
+
+def perl_class(letter):
+    """\\d \\s \\w (Unicode-aware, as in the regex crate) from Python's unicodedata; approximation errors are caught by
+    the per-run translator validation against the real regex crate."""
+    import unicodedata
+    key = letter.lower()
+    if key not in _PERL:
+        ivs = []
+        start = None
+        def member(cp):
+            c = chr(cp)
+            if key == "d":
+                return unicodedata.category(c) == "Nd"
+            if key == "s":
+                return c.isspace() and unicodedata.category(c) in ("Zs", "Zl", "Zp", "Cc") and c not in "\x1c\x1d\x1e\x1f"
+            cat = unicodedata.category(c)
+            return c.isalpha() or cat in ("Mn", "Mc", "Me", "Nd", "Nl", "Pc") or cp in (0x200C, 0x200D)
+        for cp in range(0, A.MAXCP + 1):
+            if 0xD800 <= cp <= 0xDFFF:
+                continue
+            if member(cp):
+                if start is None:
+                    start = cp
+                last = cp
+            else:
+                if start is not None:
+                    ivs.append((start, last))
+                    start = None
+        if start is not None:
+            ivs.append((start, last))
+        _PERL[key] = A.norm(ivs)
+    cs = _PERL[key]
+    return A.cs_neg(cs) if letter.isupper() else cs
+
+
+def _fold_key(cp):
+    c = chr(cp)
+    f = c.casefold()
+    if len(f) == 1:
+        return ord(f)
+    l = c.lower()
+    if len(l) == 1:
+        return ord(l)
+    return cp
+
+
+def fold_classes():
+    """Unicode simple case folding equivalence classes (approximated with Python's casefold/lower on single
+    characters); only built when a pattern uses the `i` flag. The result is validated against the real regex
+    crate on every run (translator validation), so an approximation error shows up as exit 2, not as a verdict."""
+    global _FOLD
+    if _FOLD is None:
+        by_key = {}
+        for cp in range(0, A.MAXCP + 1):
+            if 0xD800 <= cp <= 0xDFFF:
+                continue
+            k = _fold_key(cp)
+            if k != cp or True:
+                by_key.setdefault(k, []).append(cp)
+        _FOLD = {}
+        for k, members in by_key.items():
+            if len(members) > 1:
+                for m in members:
+                    _FOLD[m] = members
+    return _FOLD
+
+
+def case_close(cs):
+    """close a charset under simple case folding"""
+    fc = fold_classes()
+    extra = []
+    # only code points that have a non-trivial class matter
+    for m, members in fc.items():
+        if A.cs_contains(cs, m):
+            for x in members:
+                extra.append((x, x))
+    return A.norm(list(cs) + extra)
+
+
 class P:
     def __init__(self, src):
         self.s = src
         self.i = 0
         self.verbose = False
+        self.icase = False
 
     def peek(self, k=0):
         j = self.i + k
@@ -46,11 +129,19 @@ class P:
 
     # ------------------------------------------------------------
     def parse(self):
-        if self.s.startswith("(?x)"):
-            self.verbose = True
-            self.i = 4
-        elif self.s.startswith("(?"):
-            raise Unsupported("flags other than (?x): %r" % self.s[:8])
+        import re as _re
+        m = _re.match(r"\(\?([a-zA-Z]+)\)", self.s)
+        if m:
+            for fl in m.group(1):
+                if fl == "x":
+                    self.verbose = True
+                elif fl == "i":
+                    self.icase = True
+                else:
+                    raise Unsupported("flag %r" % fl)
+            self.i = m.end()
+        elif self.s.startswith("(?") and not self.s.startswith("(?:"):
+            raise Unsupported("unsupported leading group/flags: %r" % self.s[:8])
         self.skip_ws()
         if self.peek() != "^":
             raise Unsupported("pattern is not anchored with ^ at the start")
@@ -138,11 +229,27 @@ class P:
         c = self.peek()
         if c == "(":
             self.i += 1
+            saved = (self.verbose, self.icase)
             if self.peek() == "?":
-                if self.peek(1) == ":":
-                    self.i += 2
-                else:
-                    raise Unsupported("group flag (?%s" % self.peek(1))
+                import re as _re
+                m = _re.match(r"\?([a-zA-Z]*)(?:-([a-zA-Z]+))?:", self.s[self.i:])
+                if not m:
+                    raise Unsupported("group syntax (?%s" % self.s[self.i + 1:self.i + 4])
+                for fl in m.group(1):
+                    if fl == "x":
+                        self.verbose = True
+                    elif fl == "i":
+                        self.icase = True
+                    else:
+                        raise Unsupported("flag %r" % fl)
+                for fl in (m.group(2) or ""):
+                    if fl == "x":
+                        self.verbose = False
+                    elif fl == "i":
+                        self.icase = False
+                    else:
+                        raise Unsupported("flag -%r" % fl)
+                self.i += m.end()
             self._depth += 1
             r = self.alt()
             self.skip_ws()
@@ -150,6 +257,7 @@ class P:
                 raise Unsupported("unbalanced group at %d" % self.i)
             self.i += 1
             self._depth -= 1
+            self.verbose, self.icase = saved
             return r
         if c == "[":
             return self.klass()
@@ -157,12 +265,24 @@ class P:
             self.i += 1
             return DOT
         if c == "\\":
+            if self.peek(1) in "dDwWsS":
+                l = self.peek(1)
+                self.i += 2
+                return ("set", perl_class(l))
+            if self.peek(1) in "pPbBAzZ":
+                raise Unsupported("unicode class or assertion \\%s" % self.peek(1))
             cp = self.escape()
-            return ("set", ((cp, cp),))
+            return self._lit(cp)
         if c in "*+?{}":
             raise Unsupported("dangling quantifier %r at %d" % (c, self.i))
         self.i += 1
-        return ("set", ((ord(c), ord(c)),))
+        return self._lit(ord(c))
+
+    def _lit(self, cp):
+        cs = ((cp, cp),)
+        if self.icase:
+            cs = case_close(cs)
+        return ("set", cs)
 
     def escape(self):
         """at a backslash; returns a code point"""
@@ -214,9 +334,14 @@ class P:
                 raise Unsupported("nested class / POSIX class")
             if c == "&" and self.peek(1) == "&":
                 raise Unsupported("class intersection")
+            if c == "\\" and self.peek(1) in "dDwWsS":
+                l = self.peek(1)
+                self.i += 2
+                ivs += list(perl_class(l))
+                continue
             if c == "\\":
-                if self.peek(1) in "dDwWsSpPbB":
-                    raise Unsupported("perl/unicode class \\%s" % self.peek(1))
+                if self.peek(1) in "pPbB":
+                    raise Unsupported("unicode class \\%s" % self.peek(1))
                 lo = self.escape()
             else:
                 lo = ord(c)
@@ -250,6 +375,8 @@ class P:
                 self.i = save
                 ivs.append((lo, lo))
         cs = A.norm(ivs)
+        if self.icase:
+            cs = case_close(cs)
         if neg:
             cs = A.cs_neg(cs)
         return ("set", cs)
